@@ -19,7 +19,7 @@ def main():
         demo = open(os.path.join(src, demofile)).read()
         pkg = re.search(r"^package (\w+)", demo, re.M).group(1)
         pkgdir = {"match": "match", "core": "core", "sio": "sio", "main": "cmd/mcrew", "tools": "tools", "expect": "tools/expect",
-                  "ecmascript": "interpreters/ecmascript"}[pkg]
+                  "ecmascript": "interpreters/ecmascript"}[pkg[:-5] if pkg.endswith("_test") else pkg]
         tests = re.findall(r"^func (Test\w+)\(", demo, re.M)
         run = "^(" + "|".join(tests) + ")$"
         r = sh(["git", "apply", os.path.join(src, "patch.diff")], cwd=wt)
